@@ -163,16 +163,17 @@ func checkCompileContract(src string, jp *jmespath.JMESPath, cerr error) [][2]st
 }
 
 type replayer struct {
-	progress int64        // number of API calls finished (atomic)
-	cur      atomic.Value // description of the call in flight (violation template)
-	sum      replaySummary
-	seen     map[uint64]struct{}
-	perSig   map[uint64]int
-	maxKeep  int
-	canEvery int
-	contract bool
-	calls    int
-	oneshot  bool
+	progress    int64        // number of API calls finished (atomic)
+	cur         atomic.Value // description of the call in flight (violation template)
+	sum         replaySummary
+	seen        map[uint64]struct{}
+	perSig      map[uint64]int
+	maxKeep     int
+	canEvery    int
+	docCanEvery int
+	contract    bool
+	calls       int
+	oneshot     bool
 }
 
 func (r *replayer) add(v violation) {
@@ -315,8 +316,24 @@ func (r *replayer) runCase(fam string, c *caseRec, docs []interface{}, docsTagge
 			if canary {
 				continue
 			}
+			docCanary := false
+			if r.docCanEvery > 0 && r.calls%r.docCanEvery == 0 {
+				// canary: write to the document behind the library's back; the snapshot comparison must notice
+				if m, ok := doc.(map[string]interface{}); ok {
+					m["☃canary"] = true
+					docCanary = true
+				} else if a, ok := doc.([]interface{}); ok && len(a) >= 2 && !reflect.DeepEqual(a[0], a[1]) {
+					a[0], a[1] = a[1], a[0]
+					docCanary = true
+				}
+				if docCanary {
+					r.sum.CanariesIn++
+				}
+			}
 			if !reflect.DeepEqual(snap, doc) {
-				r.add(mk("docmod", di, allowed, "document after call: "+mustJSON(doc)))
+				v := mk("docmod", di, allowed, "document after call: "+mustJSON(doc))
+				v.Canary = docCanary
+				r.add(v)
 				docs[di] = snap // restore for the following cases
 			}
 			if o.Kind == "ok" {
@@ -369,10 +386,11 @@ func cmdReplay(args []string) int {
 	keep := fs.Int("keep", 3000, "max violations to keep in detail")
 	canEvery := fs.Int("canary-every", 0, "inject a corrupted observation every N search calls")
 	oneshot := fs.Bool("oneshot", false, "also run the one-shot Search for the first spelling")
+	docCan := fs.Int("doc-canary-every", 0, "write to the document after every N-th search call (the snapshot comparison must notice)")
 	contract := fs.Bool("contract", false, "check the Compile / SyntaxError / MustCompile contract (C17)")
 	fs.Parse(args)
 	start := time.Now()
-	r := &replayer{seen: map[uint64]struct{}{}, perSig: map[uint64]int{}, maxKeep: *keep, canEvery: *canEvery, oneshot: *oneshot, contract: *contract}
+	r := &replayer{seen: map[uint64]struct{}{}, perSig: map[uint64]int{}, maxKeep: *keep, canEvery: *canEvery, docCanEvery: *docCan, oneshot: *oneshot, contract: *contract}
 	r.sum.Counts = map[string]int{}
 	r.sum.Drift = map[string]int{}
 	files := fs.Args()
